@@ -10,7 +10,10 @@ Spec for C33.
     as state-changing, so a method added to the interface later fails closed.
 Core Lean only.
 -/
+import Pithos.Model.VHost
+
 namespace Pithos.VHost.Spec
+open Pithos.Ascii Pithos.VHost
 
 /-- storage.Storage methods that only read. -/
 def readOnlyStorageMethods : List String := [
@@ -37,5 +40,13 @@ def isReadOnly (m : String) : Bool := readOnlyStorageMethods.contains m
 
 /-- The methods a website / custom-domain mux may register. -/
 def safeHttpMethods : List String := ["GET", "HEAD"]
+
+/-- **Which hosts are the S3 API**: the configured API endpoint itself or a true subdomain of it
+(the host without its port ends in "." ++ endpoint). Every other host — the website endpoint's
+subdomains, custom domains, hosts that merely CONTAIN or START WITH the endpoint, other letter
+case, a trailing dot, IP literals — is a website host and must never change state. -/
+def isApiHost (apiEp host : List Char) : Bool :=
+  let h := stripPort host
+  h == apiEp || (dotted apiEp).isSuffixOf h
 
 end Pithos.VHost.Spec
